@@ -1027,7 +1027,15 @@ def adapt_function(text, where, subs, report):
         ty = ft.text[sig[ts].s:sig[te - 1].e]
         ft.edits.append((sig[ts].s, sig[te - 1].e - sig[ts].s, f"({ret[0]}: {ty})"))
         ads.append({"rule": "D3", "what": f"return value named `{ret[0]}`"})
-    if sigonly:
+    assumed = any(sd["kw"] == "sig" and sd["args"].strip() == "assumed" for sd in subs)
+    if sigonly and assumed:
+        # the real signature with an ASSUMED contract: body outside Verus' subset, replaced by an external_body stub
+        if body is None:
+            raise ExtractError("template", f"{where}: .sig assumed on a declaration")
+        bclose = match_close(sig, body)
+        ft.edits.append((sig[body].s, sig[bclose].e - sig[body].s, (spec_text + "\n" if spec_text else "") + "{ unimplemented!() }"))
+        ads.append({"rule": "D3", "what": "ASSUMED contract: body dropped (outside Verus' subset), #[verifier::external_body] stub keeps the real signature"})
+    elif sigonly:
         if body is not None:
             bclose = match_close(sig, body)
             ft.edits.append((sig[body].s, sig[bclose].e - sig[body].s, (spec_text + "\n" if spec_text else "") + ";"))
@@ -1039,6 +1047,8 @@ def adapt_function(text, where, subs, report):
         ads.append({"rule": "D3", "what": "contract spliced"})
     ft.apply_edits()
     attrs = [sd["args"].strip() for sd in subs if sd["kw"] == "attr"]
+    if sigonly and assumed:
+        attrs.append("#[verifier::external_body]")
     for a in attrs:
         ads.append({"rule": "D3", "what": f"attribute {a}"})
     return "".join(a + "\n" for a in attrs) + ft.text + ("\n" + extra_items if extra_items else "")
